@@ -106,6 +106,30 @@ theorem C13_access_paths_agree (P : PEnv κ σ) (s : BS κ σ) (j : Nat) (cx : C
     subst hobj
     simp [BS.read, hc, hforce, hfind]
 
+/-- **Using a context is read-only.**  Once the language map exists, no read through any access path changes the
+builder's configuration, its pending overrides or any context: whatever is done *with* a context (stropping, templates —
+all of it goes through these reads) leaves every reported value, list-valued ones included, what the merge made it.
+(Lists are leaves of the model — values, not objects.  The code assigns a list leaf by reference: the configuration's
+`reserved_identifiers` list IS the list object of the override document.  The model is faithful exactly as long as
+nothing behind a context operates on such a list in place; the correspondence re-reads every list-valued key and every
+caller-owned override document after identifiers were stropped in every language and a template was rendered.) -/
+theorem C13_using_a_context_is_read_only (P : PEnv κ σ) (s s' : BS κ σ) (j : Nat) (cx : CtxS κ σ)
+    (os : List (LangObj κ σ)) (a : Access κ) (r : Ans κ σ)
+    (hc : alook s.ctxs j = some cx) (hf : cx.langs = some os) (h : s.read P j a = .ok (s', r)) : s' = s := by
+  have hforce : s.force P j = .ok (s, cx, os) := by simp [BS.force, hc, hf]
+  cases a with
+  | cfgValue sect key => simp only [BS.read, hc, Except.ok.injEq, Prod.mk.injEq] at h; exact h.1.symm
+  | cfgOption sect key => simp only [BS.read, hc, Except.ok.injEq, Prod.mk.injEq] at h; exact h.1.symm
+  | tgtValue key => simp only [BS.read, hc, Except.ok.injEq, Prod.mk.injEq] at h; exact h.1.symm
+  | tgtOption key => simp only [BS.read, hc, Except.ok.injEq, Prod.mk.injEq] at h; exact h.1.symm
+  | langValue name key =>
+    simp only [BS.read, hc, hforce] at h
+    cases hfd : cx.find os name <;> simp only [hfd, Except.ok.injEq, Prod.mk.injEq] at h <;> exact h.1.symm
+  | langOption name key =>
+    simp only [BS.read, hc, hforce] at h
+    cases hfd : cx.find os name <;> simp only [hfd, Except.ok.injEq, Prod.mk.injEq] at h <;> exact h.1.symm
+  | names => simp only [BS.read, hc, hforce, Except.ok.injEq, Prod.mk.injEq] at h; exact h.1.symm
+
 /-- **What the language map holds, for every language.**  Building the map of a context over a configuration `c`
 (no repeated section names) constructs each non-target language on its own section and touches nothing else:
 * the target's section and every unknown name are as before;
